@@ -65,12 +65,13 @@ func (o *odometer) next() bool {
 }
 
 type c01Cfg struct {
-	topo  int
-	byRef bool
-	k     int
-	per   int  // calls per caller (0 = 1), all of one method when plain
-	plain bool // the calls carry no metadata and no deadline
-	dead  int  // further callers whose context has already ended (the transport tests the context of a Write)
+	topo   int
+	byRef  bool
+	k      int
+	per    int  // calls per caller (0 = 1), all of one method when plain
+	plain  bool // the calls carry no metadata and no deadline
+	dead   int  // further callers whose context has already ended (the transport tests the context of a Write)
+	doomed int  // calls in flight on an EARLIER connection of the same Server whose transport then fails
 }
 
 func (c c01Cfg) tags() []string {
@@ -85,6 +86,9 @@ func (c c01Cfg) tags() []string {
 	if c.dead > 0 {
 		out = append(out, "dead-callers")
 	}
+	if c.doomed > 0 {
+		out = append(out, fmt.Sprintf("doomed-connection=%d", c.doomed))
+	}
 	return out
 }
 
@@ -92,6 +96,9 @@ func (c c01Cfg) tags() []string {
 func runC01Lock(t *testing.T, cfg c01Cfg, progs [][]syCop, choose func(step int, en []syAct) int) (steps []syStep, complete, leaked bool) {
 	leaked = bubble(t, func(t *testing.T) {
 		r := newSyRigOpt(cfg.topo, cfg.byRef, true, cfg.dead > 0)
+		if cfg.doomed > 0 {
+			r.addDoomedConn(cfg.byRef)
+		}
 		for _, p := range progs {
 			r.addThread(p)
 		}
@@ -453,6 +460,44 @@ func TestC01(t *testing.T) {
 			return 0
 		})
 		rec := recC01("c01-gaps", cfg, map[string]any{"gap_ms": map[int]int{-5: 6000, -6: 60000, -7: 3600000}[g.tick], "schedule": sySchedString(steps)}, steps, complete, "mode:batches-and-gaps")
+		sp.small(&rec)
+	}
+
+	// ---- A''. ONE Server, two connections: on connection A k calls are in flight at their (gated) handlers when A's
+	// transport fails; the handlers return afterwards; then ordinary calls on connection B of the same Server: each must
+	// get the reply to its own request (what a dying connection does to anything the Server shares must not be felt)
+	for di, dc := range []c01Cfg{{topo: 0, k: 2, per: 2, doomed: 1}, {topo: 0, byRef: true, k: 2, per: 2, doomed: 8}, {topo: 0, k: 3, per: 1, doomed: 9},
+		{topo: 2, byRef: true, k: 2, per: 1, doomed: 8}, {topo: 1, k: 1, per: 2, doomed: 8}} {
+		rng := newRand(int64(78000 + di))
+		var progs [][]syCop
+		for d := 0; d < dc.doomed; d++ {
+			progs = append(progs, []syCop{{Op: "invoke", Pay: syBytes(rng, 17), M: d, Dead: 3}})
+		}
+		for i := 0; i < dc.k; i++ {
+			var p []syCop
+			for x := 0; x < dc.per; x++ {
+				p = append(p, syCop{Op: "invoke", Pay: syBytes(rng, syPickSize(rng)), M: i + x, Plain: i%2 == 1})
+			}
+			progs = append(progs, p)
+		}
+		issued, failed := 0, false
+		steps, complete, _ := runC01Lock(t, dc, progs, func(step int, en []syAct) int {
+			if issued < dc.doomed {
+				issued++
+				return 0 // the doomed callers are the first threads
+			}
+			if !failed {
+				failed = true
+				return -8
+			}
+			for i, a := range en {
+				if a.K == 'H' && a.N >= syDoomedBase {
+					return i // the handlers of the dead connection return
+				}
+			}
+			return 0
+		})
+		rec := recC01("c01-doomed-connection", dc, map[string]any{"doomed": dc.doomed, "schedule": sySchedString(steps)}, steps, complete, "mode:two-connections")
 		sp.small(&rec)
 	}
 
